@@ -87,6 +87,7 @@ def reset_classes():
             setattr(cls, attr, v)
 
 def hexs(s):
+    if not isinstance(s, str): return 'notstr:%s' % type(s).__name__     # a class attribute that was never set
     return binascii.hexlify(s.encode('utf-8')).decode()
 
 def show_oval(v):
@@ -206,7 +207,7 @@ def impl_setup(case, dirty_history=False, with_history=True):
         lines.append(show_rule(E.rule))
         eps = '-'
         if not V.exact:
-            eps = 'V%d' % V.epsilon._value
+            eps = ('V%d' % V.epsilon._value) if getattr(V.epsilon, '_value', None) is not None else 'unset:%r' % (V.epsilon,)
         lines.append('arith: cls=%s name=%s info=%s exact=%s quasi_exact=%s epsilon=%s' % (
             V.__name__, hexs(V.name), hexs(V.info), show_oval(V.exact), show_oval(V.quasi_exact), eps))
         read = []
@@ -227,7 +228,10 @@ def impl_setup(case, dirty_history=False, with_history=True):
                 lines.append('probe %d/%d: raw=%s str=%s' % (num, den, raw, s))
             except Exception as e1:
                 lines.append('probe %d/%d: exn %s' % (num, den, type(e1).__name__))
-        lines.append('report: ' + V.report())
+        try:
+            lines.append('report: ' + V.report())
+        except Exception as e3:      # a class that was never initialised for this election: the exception class is the observable
+            lines.append('report: exn ' + type(e3).__name__)
     lines.append('state: ' + ';'.join('%s=%s' % (name, show_attr(name, cls, attr)) for (name, cls, attr) in FIELDS))
     consts = [(c.__name__, a) for (c, a, want) in CONSTANTS if c.__dict__.get(a, _ABSENT) != want]
     if consts:
